@@ -115,6 +115,8 @@ class SimInverter:
                 self.aa55["_info_served"] = True
             return F.aa55_answer(rt, self.aa55.get("info", bytes(64)))
         if ctl == 1 and fn == 0x06:
+            if self.aa55.get("mute_runtime"):
+                return None
             return F.aa55_answer(rt, self.aa55.get("runtime", bytes(149)))
         if ctl == 1 and fn == 0x09:
             n = self.aa55.get("settings_len", ES_SETTINGS_LEN)
